@@ -174,7 +174,7 @@ pub const LANGS: &[Lang] = &[
     },
     Lang {
         id: "make",
-        line: &["#", "##"],
+        line: &["#", "##", "#!"],
         block: None,
         nests: false,
         star: false,
@@ -219,7 +219,7 @@ pub const LANGS: &[Lang] = &[
     },
     Lang {
         id: "python",
-        line: &["#", "##"],
+        line: &["#", "##", "#!"],
         block: None,
         nests: false,
         star: false,
@@ -234,7 +234,7 @@ pub const LANGS: &[Lang] = &[
     },
     Lang {
         id: "ruby",
-        line: &["#", "##"],
+        line: &["#", "##", "#!"],
         block: Some(("=begin", "=end")),
         nests: false,
         star: false,
@@ -294,7 +294,7 @@ pub const LANGS: &[Lang] = &[
     },
     Lang {
         id: "toml",
-        line: &["#", "##"],
+        line: &["#", "##", "#!"],
         block: None,
         nests: false,
         star: false,
@@ -354,7 +354,7 @@ pub const LANGS: &[Lang] = &[
     },
     Lang {
         id: "yaml",
-        line: &["#", "##"],
+        line: &["#", "##", "#!"],
         block: None,
         nests: false,
         star: false,
